@@ -105,7 +105,7 @@ def resReceiverSet (h : Hook) (c : Conn) : R :=
 /-- htp_connp_tx_create (none = NULL) -/
 def txCreate (cfg : Cfg) (c : Conn) : Conn × Option Nat :=
   let size := c.txs.length
-  let c := if (size : Int) > c.outNextTxIndex then { c with connFlags := setFlag c.connFlags CONN_PIPELINED } else c
+  let c := { c with connFlags := if (size : Int) > c.outNextTxIndex then setFlag c.connFlags CONN_PIPELINED else c.connFlags }
   if cfg.maxTx > 0 && size > cfg.maxTx then (c, none) else
   let uid := c.nextUid
   let t : Tx := { uid := uid, index := size, portNumber := 0 }
